@@ -72,6 +72,14 @@ def case_strategy(draw, max_msgs=12):
     n = draw(st.integers(1, max_msgs))
     msgs = []
     for _ in range(n):
+        if draw(st.integers(0, 7)) == 0:
+            # the application removes / re-installs one of its callbacks between messages
+            seen = [tuple(x["sf"]) for x in msgs if "ctl" not in x and tuple(x["sf"]) in USER]
+            sf = draw(st.sampled_from(seen)) if seen and draw(st.booleans()) else draw(st.sampled_from(sorted(USER)))
+            msgs.append({"ctl": draw(st.sampled_from(["unregister", "unregister", "register"])), "sf": list(sf)})
+            # ... and the same function arrives again afterwards
+            msgs.append({"cls": "user", "sf": list(sf), "w": 1, "body": "valid", "cb": draw(st.sampled_from(["return", "raise"]))})
+            continue
         cls = draw(st.sampled_from(["builtin", "user", "nocb", "uncat"]))
         if cls == "builtin":
             sf = draw(st.sampled_from(builtin))
@@ -175,10 +183,17 @@ def run_case(case, observe=None):
         catalogued = {(c.stream, c.function) for c in h.settings.streams_functions._functions}
         for i, m in enumerate(case["msgs"]):
             sf = tuple(m["sf"])
+            if "ctl" in m:
+                if m["ctl"] == "unregister":
+                    h.unregister_stream_function(sf[0], sf[1])
+                    stats["unregistered"] = stats.get("unregistered", 0) + 1
+                else:
+                    h.register_stream_function(sf[0], sf[1], mk_cb(sf))
+                continue
             cls = m["cls"]
             # the label is a generation hint; the real class comes from the catalogue and the registered callbacks
             has_callback = f"s{sf[0]:02d}f{sf[1]:02d}" in h.callbacks
-            if sf in USER:
+            if sf in USER and has_callback:
                 cls = "user"
             elif has_callback:
                 cls = "builtin"
@@ -281,12 +296,15 @@ def run_task(name, kw, ctx):
     def body(case):
         obs = {}
         f = run_case(case, obs)
-        nt = bool(obs.get("malformed") or obs.get("uncat") or obs.get("failing_cb") or (len(case["msgs"]) >= 10 and obs.get("nclasses", 0) >= 4))
+        nt = bool(obs.get("malformed") or obs.get("uncat") or obs.get("failing_cb") or any("ctl" in m for m in case["msgs"]) or (len(case["msgs"]) >= 10 and obs.get("nclasses", 0) >= 4))
         cls = [case["role"]]
         for k in ("malformed", "uncat", "failing_cb"):
             if obs.get(k):
                 cls.append(k)
         for m in case["msgs"]:
+            if "ctl" in m:
+                cls.append(f"ctl:{m['ctl']}")
+                continue
             cls.append(f"cls:{m['cls']}")
             cls.append(f"body:{m['body']}")
         ctx.case(case, nt or f is not None, cls)
